@@ -141,10 +141,33 @@ impl Check for C01Check {
     }
 
     fn run(&self, case: &Json, stats: &mut Stats) -> Result<(), Violation> {
-        for p in ["probe.value_fault", "probe.budget_fault_in_nested_call", "probe.full_budget_enumeration", "probe.clock_near_i64_max", "probe.fault_then_continue", "probe.rejected_by_compiler"] {
+        for p in ["probe.value_fault", "probe.budget_fault_in_nested_call", "probe.full_budget_enumeration", "probe.clock_near_i64_max", "probe.fault_then_continue", "probe.rejected_by_compiler", "probe.drift_attributed_by_twin"] {
             stats.add(p, 0);
         }
         let src = proggen::render(&case["project"]);
+        match self.run_src(case, &src, stats) {
+            Err(mut v) if v.signature.starts_with("static-fault/") && !v.signature.ends_with("/with-tag-drift") => {
+                // a drifted slot in a function's frame is gone when the fault surfaces: decide by the twin in which
+                // every implicit widening assignment is an explicit conversion (same program by the language rules)
+                if let Some(twin) = proggen::explicit_widening(&src) {
+                    let mut scratch = Stats::default();
+                    let twin_static = matches!(self.run_src(case, &twin, &mut scratch), Err(t) if t.signature.starts_with("static-fault/"));
+                    if !twin_static {
+                        stats.inc("probe.drift_attributed_by_twin");
+                        v.signature.push_str("/with-tag-drift");
+                        v.detail.push_str("; no drifted slot is left in storage, but the fault disappears when the implicit widening assignments are written as explicit conversions");
+                    }
+                }
+                Err(v)
+            }
+            r => r,
+        }
+    }
+}
+
+impl C01Check {
+    fn run_src(&self, case: &Json, src: &str, stats: &mut Stats) -> Result<(), Violation> {
+        let src = src.to_string();
         let mut ph = Fnv::new();
         ph.str(&src);
         let phash = ph.finish();
